@@ -2,6 +2,7 @@ use crate::{Ctx, Out};
 
 pub mod c01;
 pub mod c02;
+pub mod c03;
 pub mod c04;
 pub mod c05;
 pub mod c06;
@@ -14,16 +15,20 @@ pub mod c18;
 pub mod c18_impls;
 pub mod c19;
 pub mod c20;
+pub mod c22;
+pub mod c22_model;
+pub mod c23;
 pub mod c24;
 pub mod c25;
 pub mod c26;
 pub mod c27;
 pub mod c28;
 pub mod unify;
+pub mod fp;
 
 /// properties whose harness run is split over child processes (see main.rs `run_sharded`)
 pub fn sharded(prop: &str) -> bool {
-    matches!(prop, "C04" | "C13" | "C28" | "C20" | "C08")
+    matches!(prop, "C04" | "C13" | "C28" | "C20" | "C08" | "C09" | "C10" | "C11" | "C12")
 }
 
 pub fn run(ctx: &Ctx, out: &mut Out) -> bool {
@@ -31,17 +36,21 @@ pub fn run(ctx: &Ctx, out: &mut Out) -> bool {
         "C01" => c01::run(ctx, out),
         "C02" => c02::run(ctx, out),
         "C16" => c16::run(ctx, out),
+        "C03" => c03::run(ctx, out),
         "C04" => c04::run(ctx, out),
         "C05" => c05::run(ctx, out),
         "C06" => c06::run(ctx, out),
         "C07" => c07::run(ctx, out),
         "C28" => c28::run(ctx, out),
         "C08" => c08::run(ctx, out),
+        "C09" | "C10" | "C11" | "C12" => fp::run(ctx, out),
         "C13" => c13::run(ctx, out),
         "C17" => c17::run(ctx, out),
         "C18" => c18::run(ctx, out),
         "C19" => c19::run(ctx, out),
         "C20" => c20::run(ctx, out),
+        "C22" => c22::run(ctx, out),
+        "C23" => c23::run(ctx, out),
         "C24" => c24::run(ctx, out),
         "C25" => c25::run(ctx, out),
         "C26" => c26::run(ctx, out),
